@@ -500,6 +500,32 @@ static void c17_type(Reporter& R, const std::string& name, uint64_t id) {
             return;
           }
           R.count("c17_mutablevalue_probes");
+          // whole-value assignment through the mutable reference from the other forms the value type accepts, onto a value that
+          // already holds other numbers: every stored number is replaced, none is kept
+          using VT = std::decay_t<decltype(std::declval<Q&>().MutableValue())>;
+          if constexpr (N > 1 && std::is_assignable_v<VT&, const std::array<T, N>&>) {
+            Q m2 = V::make(a);
+            m2.MutableValue() = vals[2];
+            R.eval();
+            if (V::arr(m2) != vals[2]) {
+              R.violation(key + "|MutableValue=array", J().s("type", name).raw("before", jarr(a)).raw("written", jarr(vals[2])).raw("read", jarr(V::arr(m2))).str());
+              return;
+            }
+            R.count("c17_mutablevalue_array_probes");
+          }
+          if constexpr (N == 9 && std::is_assignable_v<VT&, const PhQ::SymmetricDyad<T>&>) {
+            std::array<T, 6> six;
+            for (auto& v : six) v = rng.logu<T>(-30, 30, true);
+            const std::array<T, N> want = {six[0], six[1], six[2], six[1], six[3], six[4], six[2], six[4], six[5]};
+            Q m3 = V::make(a);
+            m3.MutableValue() = PhQ::SymmetricDyad<T>(six);
+            R.eval();
+            if (V::arr(m3) != want) {
+              R.violation(key + "|MutableValue=SymmetricDyad", J().s("type", name).raw("before", jarr(a)).raw("written_symmetric", jarr(six)).raw("read", jarr(V::arr(m3))).str());
+              return;
+            }
+            R.count("c17_mutablevalue_symmetric_probes");
+          }
         }
       }
       if constexpr (has_zero<Q>::value) {
@@ -550,6 +576,24 @@ static void c17_component(Reporter& R, const std::string& key, const char* comp,
   }
 }
 
+// whole-value assignment of a shape from the other forms it accepts, onto an object that already holds other numbers
+template <typename S, typename Src, size_t N>
+static void c17_assign(Reporter& R, const std::string& key, const char* form, Rng& rng, const Src& src, const std::array<typename View<S>::T, N>& want) {
+  using T = typename View<S>::T;
+  std::array<T, N> a;
+  for (size_t i = 0; i < N; ++i) a[i] = rng.logu<T>(-20, 20, true);
+  S s = View<S>::make(a);
+  s = src;
+  const auto after = View<S>::arr(s);
+  R.eval();
+  for (size_t i = 0; i < N; ++i) {
+    if (!same_bits(after[i], want[i])) {
+      R.violation(key + "|assign|" + form, J().s("form", form).i("slot", i).raw("before", jarr(a)).raw("expected", jarr(want)).raw("after", jarr(after)).str());
+      return;
+    }
+  }
+}
+
 #define C17_COMP(S, COMP, SLOT)                                                                                               \
   c17_component<S>(R, key + "|Set", #COMP, SLOT, rng, [](S& s, T v) { s.Set_##COMP(v); return s.COMP(); });                      \
   c17_component<S>(R, key + "|Mutable", #COMP, SLOT, rng, [](S& s, T v) { s.Mutable_##COMP() = v; return s.COMP(); });
@@ -567,23 +611,39 @@ static void c17_shapes(Reporter& R, uint64_t id) {
       const std::string key = std::string("C17|PlanarVector|") + Num<T>::name;
       R.crumb(key);
       C17_COMP(PV, x, 0) C17_COMP(PV, y, 1)
+      std::array<T, 2> b;
+      for (auto& v : b) v = rng.logu<T>(-20, 20, true);
+      c17_assign<PV>(R, key, "=array", rng, b, b);
     }
     {
       const std::string key = std::string("C17|Vector|") + Num<T>::name;
       R.crumb(key);
       C17_COMP(VV, x, 0) C17_COMP(VV, y, 1) C17_COMP(VV, z, 2)
+      std::array<T, 3> b;
+      for (auto& v : b) v = rng.logu<T>(-20, 20, true);
+      c17_assign<VV>(R, key, "=array", rng, b, b);
     }
     {
       const std::string key = std::string("C17|SymmetricDyad|") + Num<T>::name;
       R.crumb(key);
       C17_COMP(SD, xx, 0) C17_COMP(SD, xy, 1) C17_COMP(SD, xz, 2) C17_COMP(SD, yx, 1) C17_COMP(SD, yy, 3)
       C17_COMP(SD, yz, 4) C17_COMP(SD, zx, 2) C17_COMP(SD, zy, 4) C17_COMP(SD, zz, 5)
+      std::array<T, 6> b;
+      for (auto& v : b) v = rng.logu<T>(-20, 20, true);
+      c17_assign<SD>(R, key, "=array", rng, b, b);
     }
     {
       const std::string key = std::string("C17|Dyad|") + Num<T>::name;
       R.crumb(key);
       C17_COMP(DD, xx, 0) C17_COMP(DD, xy, 1) C17_COMP(DD, xz, 2) C17_COMP(DD, yx, 3) C17_COMP(DD, yy, 4)
       C17_COMP(DD, yz, 5) C17_COMP(DD, zx, 6) C17_COMP(DD, zy, 7) C17_COMP(DD, zz, 8)
+      std::array<T, 9> b;
+      for (auto& v : b) v = rng.logu<T>(-20, 20, true);
+      c17_assign<DD>(R, key, "=array", rng, b, b);
+      std::array<T, 6> six;
+      for (auto& v : six) v = rng.logu<T>(-20, 20, true);
+      const std::array<T, 9> emb = {six[0], six[1], six[2], six[1], six[3], six[4], six[2], six[4], six[5]};
+      c17_assign<DD>(R, key, "=SymmetricDyad", rng, SD(six), emb);
     }
   }
   for (const char* sh : {"PlanarVector", "Vector", "SymmetricDyad", "Dyad"}) R.nontrivial(hash_str(std::string("C17|shape|") + sh + Num<T>::name));
